@@ -73,7 +73,9 @@ class Prepared:
                 it._const = None
                 it._lut = None
                 if it.uses_lut:
-                    if it.ifm.bits == 16:
+                    if it.ofm.bits == 16:
+                        # the table stage works on the scaled result, i.e. in the OFM's (or the forced 8-bit) range: a 16-bit IFM
+                        # with an 8-bit OFM looks up an ordinary 256-entry table
                         it._lut = (self.hw["lut_addr"], HW.LUT_BYTES)  # 512 x 32-bit (base, slope) entries
                     else:
                         # 256 entries of the OFM's width, starting at 256-byte slot lut_index
